@@ -6,6 +6,7 @@ import (
 	"context"
 	"crypto/sha256"
 	"encoding/hex"
+	"errors"
 	"encoding/json"
 	"fmt"
 	"os"
@@ -196,6 +197,8 @@ type c20Exec struct {
 	spendID    string
 	wa         c20Adapter
 	waOld      c20Adapter // the watcher of the previous process life (drain with restart)
+	cbFail     int        // csv callbacks that will return an error (the swap could not take the event: store fault)
+	cbFailed   int        // ... and how many did
 	regd       bool
 	reports    []c20Report
 	viols      []mc.Violation
@@ -458,6 +461,12 @@ func (x *c20Exec) onCsv(swapID string) error {
 		x.add("csv_callback_without_registration", x.describe(r))
 		return nil
 	}
+	if x.cbFail > 0 {
+		// the swap could not take the event (e.g. its store write failed): no report; the watcher has to come again
+		x.cbFail--
+		x.cbFailed++
+		return errors.New("swap could not take the csv event (injected)")
+	}
 	prev := x.reports
 	x.reports = append(x.reports, r)
 	if len(prev) > x.reregs {
@@ -578,6 +587,7 @@ func (x *c20Exec) drainCsv() {
 	x.c.StaleOnce = false
 	x.stalePrev = false
 	x.races = nil
+	x.cbFail = 0
 	x.apply(mc.Event{Name: "jump", Arg: "csv"})
 	for i := 0; i < 3 && len(x.reports) == 0; i++ {
 		x.apply(mc.Event{Name: "block", Arg: "empty"})
@@ -591,6 +601,8 @@ func (x *c20Exec) drainCsv() {
 			how = ":although_registered_again"
 		case x.regWithFault || x.reregs > 0:
 			how = ":registration_failed_silently"
+		case x.cbFailed > 0:
+			how = ":after_a_callback_that_failed"
 		}
 		x.add("csv_maturity_never_reported_after_services_recovered"+how, fmt.Sprintf("family %s: CSV registration open, output unspent and %d deep (csv %d), all services healthy for the last %d blocks: no maturity report", x.f.Name, t.depth(), x.CSV, 3))
 		if os.Getenv("VERIF_C20_DRAIN") == "restart" {
@@ -727,6 +739,8 @@ func (x *c20Exec) apply(e mc.Event) {
 		x.regWithFault = x.pendingFaults()
 		x.wa.reg(x.f.Kind)
 		synctest.Wait()
+	case "cbfail":
+		x.cbFail = 1
 	case "rereg":
 		// the swap registers the same watch again (a maker does when it moves on to its wait-for-CSV state)
 		x.reregs++
@@ -799,6 +813,10 @@ func (x *c20Exec) enabled() []mc.Event {
 		out = append(out, mc.Event{Name: "reg"})
 	} else if x.f.Kind == "csv" && x.reregs == 0 && len(x.reports) == 0 {
 		out = append(out, mc.Event{Name: "rereg"})
+	}
+	if os.Getenv("VERIF_C20_CBFAIL") != "" && x.f.Kind == "csv" && x.f.Watcher == "rpc" && x.cbFail == 0 && x.cbFailed == 0 && len(x.reports) == 0 {
+		// only as a sub-check of C07: the next csv callback fails (the rpc watcher is the one that promises to come again)
+		out = append(out, mc.Event{Name: "cbfail"})
 	}
 	if !t.Exists {
 		out = append(out, mc.Event{Name: "submit"})
@@ -924,7 +942,7 @@ func (x *c20Exec) key() string {
 	// the block hashes, which the watchers compare with each other and with
 	// the poller's last one (hashIsTip in the RPC adapter's part of the key)
 	return fmt.Sprintf("%s|tip+%d|tx=%s spent=%v spender=%s|%s stale=%v races=%v|reg=%v reports=%v extra=%d/%d|%s|v=%v",
-		x.f.Name, t.Tip-x.base, st(t.Exists, t.Height), t.Spent, sps, x.w.FaultKey(), fmt.Sprint(x.c.StaleOnce, x.stalePrev), rc, x.regd, rs, x.extra[c20CsvID]+10*x.reregs, x.extra[c20ConfID2], x.wa.obsKey(), vk)
+		x.f.Name, t.Tip-x.base, st(t.Exists, t.Height), t.Spent, sps, x.w.FaultKey(), fmt.Sprint(x.c.StaleOnce, x.stalePrev), rc, x.regd, rs, x.extra[c20CsvID]+10*x.reregs+100*x.cbFail+1000*x.cbFailed, x.extra[c20ConfID2], x.wa.obsKey(), vk)
 }
 
 func (x *c20Exec) outcome() string {
